@@ -8,10 +8,18 @@ ASSUMPTIONS = [
     '(first bucket = 1 element, 6-entry buffer table); reserve() arguments <= 8 so that no bucket beyond the table is requested',
     'operations are called within their documented preconditions (positions inside [begin, end], pop_back on a non-empty vector)',
     'kernel: bucketAndSubIndex reads only firstBucketShift_/firstBucketLen_, which are set to a symbolic shift s and 1 << s',
+    'spill_* instances: every modelled block is preceded by 64 bytes of the same allocation (VF_CV_HEADER), as the real alignedMalloc '
+    'block is preceded by >= 8 bytes holding the recovery pointer: the pointer-caching iterator forms bucketStart_ - 1 in operator-- '
+    'and compares it with bucketStart_, which CBMC only evaluates like the hardware does for pointers inside the object',
+    'spill_* instances, model options: std::atomic<T*> loads/stores (i64 + inttoptr/ptrtoint in the IR) are emitted pointer-typed '
+    '(VF_PTR_ATOMICS); the fast iterator\'s `vb_ & ~63` is resolved to the vector registered by the harness under an asserted equality '
+    '(VF_UNTAG, class rt -> inconclusive if it ever fails, never assumed); pointer differences are C pointer differences (ptrdiff)',
 ]
 OUTSIDE = ('histories of more than one symbolic operation after the concrete prefix for most operation kinds (see NOTES.md: CBMC symbolic '
            'execution of the template code does not finish for 2 symbolic operations of all kinds within 400 s); sizes above VF_MAXN; '
-           'the fast (pointer-tagging) iterator instantiations beyond the instances listed; element types other than the '
+           'the fast (pointer-caching) iterator beyond the spill_* instances (one growing operation with literal sizes on a concrete prefix '
+           'of <= 3 elements, final size <= 5, first bucket 1 or 2; erase/shrink/whole-vector operations and symbolic histories are only decided '
+           'for the compact iterator); element types other than the '
            'lifetime-tracked int payload; memory reuse by the allocator')
 
 # operation kinds (bit numbers) of history.cpp
@@ -141,8 +149,10 @@ INSTANCES.append(spill('def', 'insert_count', 2, 3, 2, T, pos=1, timeout=1800))
 INSTANCES.append(spill('def', 'insert_count', 2, 2, 3, T, pos=0, timeout=1800))
 INSTANCES.append(spill('def', 'grow_default', 2, 3, 2, T))
 INSTANCES.append(spill('def', 'resize', 2, 2, 3, T))
+# (heap table + fast iterator: insert_count p3 c2 at 1 did not finish in 280 s -- the table itself is a modelled byte block; only the
+# growth operation is in the tier for trait set C)
+INSTANCES.append(spill('E', 'insert_count', 0, 3, 2, T, pos=1, timeout=1800))
 for tr in ('C', 'E'):
-    INSTANCES.append(spill(tr, 'insert_count', 0, 3, 2, T, pos=1, timeout=1800))
     INSTANCES.append(spill(tr, 'grow_default', 0, 3, 2, T))
 # kFullBufferAhead allocates bucket b+1 when slot 0 of bucket b is written: a 1-element prefix + 4 elements spills into bucket 3
 INSTANCES.append(spill('B', 'insert_count', 0, 1, 4, T, pos=0, timeout=1800))
